@@ -1,3 +1,5 @@
+//go:build verif
+
 package zz_verif
 
 import (
@@ -187,3 +189,8 @@ func H_hist3() {
 	}
 	vx.Cover("hist-done")
 }
+
+var _ = register("H_smoke", H_smoke)
+var _ = register("H_hist", H_hist)
+var _ = register("H_hist2", H_hist2)
+var _ = register("H_hist3", H_hist3)
